@@ -209,6 +209,7 @@ func runShape(c *mc.Ctx, sh shape, br *o4h.Bridge, seed int64, quick bool) {
 	var sentPayload int
 	warm := 0
 	finished := false
+	var wantPayload []byte
 	res := sched.Run(c, sched.Options{NoPreempt: true, MaxSteps: 20_000_000}, func() {
 		s := sched.Cur()
 		var conn net.Conn
@@ -291,8 +292,24 @@ func runShape(c *mc.Ctx, sh shape, br *o4h.Bridge, seed int64, quick bool) {
 				cells = append(cells, cell{i, 0})
 			}
 		}
-		data := o4h.Pattern('D', 0, sh.size)
 		for _, ce := range cells {
+			size := sh.size
+			if sh.size < 0 {
+				// "near target": the framed write ends k = -size bytes short
+				// of the value this cell samples, so the needed padding is
+				// smaller than (or equal to) a frame header
+				var T0 int
+				if governed {
+					T0 = expectSample(lenD, ce)
+				} else {
+					T0 = lenVals[ce.idx]
+				}
+				size = T0 - 21 + sh.size
+				if size < 1 {
+					continue
+				}
+			}
+			data := o4h.Pattern('D', 0, size)
 			stream.Script = rnd.ScriptSample(ce.idx, ce.coin)
 			w0 := len(realWire.Out.Writes)
 			t0 := s.Now()
@@ -307,7 +324,7 @@ func runShape(c *mc.Ctx, sh shape, br *o4h.Bridge, seed int64, quick bool) {
 						if msg == "BUG: Write(), iat length was 0" {
 							key = "shape/write-panic/iat-len-0"
 						}
-						fail(c, "no-panic", key, "%s Write(%d bytes) iat-mode=%d panicked: %v (first scripted sample cell idx=%d coin=%v)", sh.role, sh.size, sh.iat, r, ce.idx, ce.coin)
+						fail(c, "no-panic", key, "%s Write(%d bytes) iat-mode=%d panicked: %v (first scripted sample cell idx=%d coin=%v)", sh.role, size, sh.iat, r, ce.idx, ce.coin)
 					}
 				}()
 				k, werr = conn.Write(data)
@@ -317,9 +334,10 @@ func runShape(c *mc.Ctx, sh shape, br *o4h.Bridge, seed int64, quick bool) {
 				return
 			}
 			nWrites++
-			sentPayload += sh.size
-			if k != sh.size {
-				fail(c, "write-result", "shape/write-result", "Write(%d) returned %d", sh.size, k)
+			sentPayload += size
+			wantPayload = append(wantPayload, data...)
+			if k != size {
+				fail(c, "write-result", "shape/write-result", "Write(%d) returned %d", size, k)
 			}
 			ws := realWire.Out.Writes[w0:]
 			var T int
@@ -328,7 +346,9 @@ func runShape(c *mc.Ctx, sh shape, br *o4h.Bridge, seed int64, quick bool) {
 			} else {
 				T = lenVals[ce.idx]
 			}
-			checkWrites(c, sh, ws, T, lenVals, iatVals, t0)
+			shc := sh
+			shc.size = size
+			checkWrites(c, shc, ws, T, lenVals, iatVals, t0)
 			if c.Failed() {
 				return
 			}
@@ -359,7 +379,7 @@ func runShape(c *mc.Ctx, sh shape, br *o4h.Bridge, seed int64, quick bool) {
 	if rs.RxErr != nil {
 		fail(c, "frames", "shape/frames", "reference decoder rejected the shaped stream: %v", rs.RxErr)
 	}
-	want := bytes.Repeat(o4h.Pattern('D', 0, sh.size), nWrites)
+	want := wantPayload
 	if warm == 1 {
 		want = append([]byte{0x41}, want...)
 	}
@@ -475,7 +495,8 @@ func main() {
 			}
 			emit(padScenario(lo, hi))
 		}
-		sizes := []int{0, 1, 20, 21, 22, 1427, 1428, 5000, 20000}
+		// negative sizes are "near target" writes: framed length = sampled value - k
+		sizes := []int{0, 1, 20, 21, 22, 1427, 1428, 5000, 20000, -1, -21, -22}
 		quick := !cfg.Thorough()
 		for _, bias := range []bool{false, true} {
 			for iat := 0; iat <= 2; iat++ {
@@ -502,6 +523,9 @@ func main() {
 								sh := shape{role, b.no, iat, bias, size, ph}
 								br := b.b
 								w := 1 + size/2000
+								if size < 0 {
+									w = 2
+								}
 								if iat == 2 {
 									w *= 4
 								}
